@@ -185,6 +185,59 @@ def parser_histories(rec, hb, pvl, tier, seed, part, nparts, pristine):
                     break
 
 
+SOAK_TEXTS = [
+    # failures in the middle of nested values, at several depths
+    "k = (1, (2, (3, 4\n", "k = {1, {2, 3\n", "k = ((((1, 2)\n", "k = (1, 2 3)\n",
+    "k = (1, {2, (3, \x01)})\n", "GROUP = g\n k = (1, (2\nEND_GROUP\n",
+    "k = (1, 'unterminated)\n", "k = (1, 2) <m\n", "k = ((1, 2), (3, 4\n",
+]
+SOAK_GOOD = [
+    "k = (1, (2, (3, 4)))\nEND\n", "k = {1, 2}\nj = ((1, 2), (3, 4))\nEND\n",
+    "a = 1\nb = 2\nEND\n", "a =\nb = (1, 2)\nEND\n",
+    "GROUP = g\n x = ((1), (2))\nEND_GROUP\nEND\n",
+]
+
+
+def parser_soak(rec, hb, pvl, tier, seed, part, nparts, pristine):
+    """One parser object for hundreds of texts, most of which fail part-way
+    through a nested value: whatever it counts, caches or leaves open must not
+    reach the well-formed texts in between (each compared with a fresh parser
+    in a pristine process)."""
+    fresh_cache = {}
+    rng = random.Random(f"C16-soak-{seed}-{part}")
+    steps = 700 if tier == "quick" else 6000
+    for k, reader in enumerate(PARSERS):
+        if k % nparts != part % len(PARSERS) and nparts >= len(PARSERS):
+            continue
+        hb.beat()
+        inst = strict_parser(pvl, reader)
+        hist_len = 0
+        for step in range(steps):
+            bad = step % 7 != 6
+            text = rng.choice(SOAK_TEXTS + TEXTS[3:8]) if bad else rng.choice(SOAK_GOOD)
+            got = observe_parse(pvl, inst, text, "parse", reader)
+            key = (reader, text)
+            if key not in fresh_cache:
+                fresh_cache[key] = pristine.ask(("parse", reader, "parse", text))
+                rec.count("pristine_process_references")
+            rec.count("soak_steps_compared")
+            hist_len += 1
+            if got != fresh_cache[key]:
+                rec.violation(
+                    CHECK, reader, "reused-parser-differs-from-fresh",
+                    {"what": "outcome" if got[0] != fresh_cache[key][0] else "result",
+                     "after_a_long_history": True,
+                     "an_earlier_text_failed": True,
+                     "an_earlier_text_had_empty_values": None,
+                     "an_earlier_call_lent_grammar_and_decoder": False,
+                     "state_is_outside_the_instance": None},
+                    {"parser": reader, "history_length": hist_len, "text": text,
+                     "history": "random draws from SOAK_TEXTS (6 of 7) and SOAK_GOOD"},
+                    f"after {hist_len} texts: {got!r:.200} vs fresh {fresh_cache[key]!r:.200}")
+                break
+        rec.case(("parser-soak", reader, part), True)
+
+
 def encoder_modules(pvl, rng):
     col = pvl.collections
     mods = []
@@ -527,6 +580,7 @@ def shard(i, n, tier, seed, rec, hb):
               if prelude.hostile_history(pvl, i) else "workers_starting_fresh")
     try:
         parser_histories(rec, hb, pvl, tier, seed, i, n, pristine)
+        parser_soak(rec, hb, pvl, tier, seed, i, n, pristine)
         encoder_histories(rec, hb, pvl, tier, seed, i, n, pristine, mods, cfgs)
         shared_object_histories(rec, hb, pvl, tier, seed, i, n)
         decoder_histories(rec, hb, pvl, tier, seed, i, n, pristine)
@@ -544,6 +598,7 @@ def finish_kwargs(rec, tier):
                                   "and over the module set (encoders; every "
                                   "third history in the quick tier)"},
         required_counters=("parser_steps_compared", "encoder_steps_compared",
+                           "soak_steps_compared",
                            "decoder_steps_compared", "shared_object_steps_compared",
                            "shared_table_steps_compared",
                            "shared_writer_steps_compared",
